@@ -199,6 +199,19 @@ func registerChecks() {
 			for i, c := range cs {
 				cs[i] = withFrags(c, cx.R)
 			}
+			// the Group form with an EMPTY argument list, extended afterwards through the
+			// returned statement (g.Add() / g.List() / g.Call() … then chained calls)
+			for i := 0; i < cx.N(300, 5000); i++ {
+				r := cx.R.Fork()
+				g := validGen(r, sanePool(r, 2))
+				g.comments = false
+				d := g.decl(3)
+				first := pick(r, []SItem{&AddItems{}, &Grp{Api: "List"}, &AddItems{}, &Grp{Api: "Union"}})
+				c := &Case{ID: fmt.Sprintf("C14-emptyform-%d-%d", cx.Seed, i)}
+				c.Ops = append(c.Ops, Op{Kind: OpFile, F: 0, Str: []string{"new", "", "p"}})
+				c.Ops = append(c.Ops, Op{Kind: OpFNew, S: 1, F: 0, Items: []SItem{first}}, Op{Kind: OpApp, S: 1, Items: d.Items}, Op{Kind: OpRender, F: 0})
+				cs = append(cs, c)
+			}
 			return cs
 		},
 		Oracle: oracleC14,
